@@ -176,7 +176,9 @@ func (i *importedString) Length() int {
 func (i *importedString) Concat(v String) String {
 	if !i.scanned {
 		if v, ok := v.(*importedString); ok {
-			if !v.scanned {
+			// Joining the Go strings is only equivalent to joining the code units if the junction cannot
+			// complete a truncated UTF-8 sequence, i.e. the right side does not start with a continuation byte.
+			if !v.scanned && (len(v.s) == 0 || utf8.RuneStart(v.s[0])) {
 				return &importedString{s: i.s + v.s}
 			}
 		}
